@@ -171,6 +171,19 @@ func runC07(c *Ctx) {
 	r.Doc("E11", "(= X1) every configured / added input is registered in the table under its own key, unconditionally", 4)
 	r.Doc("E12", "(= X9) v1 Simple: the supervising goroutine waits only for stop, cancel, the graceful request and the inner discipline's end", 7)
 	r.Doc("E9", "the error channel never delays termination: made with capacity >= 1 and written at most once per goroutine (reading Err() is optional)", 3)
+	// E19 (= D8, N4): an input whose priority has no share is never read, so never observed closed:
+	// the v2 constructor refuses such configurations (otherwise Output()/Err() never close although
+	// every input is closed and empty and everything is released)
+	r.Doc("E19", "(= C15 D8) the v2 constructor rejects a zero share for any registered priority (every registered input is read, hence observed closed)", 1)
+	{
+		sub := &Ctx{V1: c.V1, V2: c.V2, Tier: c.Tier, R: NewReport("tmp", c.Tier)}
+		checkD7D8(sub)
+		for _, o := range sub.R.Obls {
+			if o.Rule == "D8" {
+				r.Check(o.OK, "E19", strings.TrimPrefix(o.Key, "D8@"), o.Site, o.Detail, o.Detail)
+			}
+		}
+	}
 	// E18 (= X7): "for the simplified disciplines termination additionally implies that every Handle
 	// call has returned": the release follows the return of Handle (a release sent first lets the
 	// scheduler see nothing in flight and close its channels while Handle still runs)
@@ -244,6 +257,14 @@ func runC07(c *Ctx) {
 			checkB9(sub, pr)
 			if pr.v1 {
 				checkB11(sub, pr)
+			}
+			// (nothing else writes the counts: handed to a writer, or - v2 - cleared)
+			subc := &Ctx{V1: c.V1, V2: c.V2, Tier: c.Tier, R: NewReport("tmp", c.Tier)}
+			checkB1(subc, pr)
+			for _, o := range subc.R.Obls {
+				if strings.Contains(o.Key, "#actual-content") {
+					sub.R.Check(o.OK, o.Rule, o.Key, o.Site, o.Detail, o.Detail)
+				}
 			}
 			for _, o := range sub.R.Obls {
 				c.R.Check(o.OK, "E8", o.Key, o.Site, o.Detail, o.Detail)
